@@ -13,7 +13,7 @@ use serde_json::{json, Value};
 pub const ROOT_BUDGET: usize = 16384 - 127;
 
 fn tile_entries(rng: &mut Rng, n: usize, entropy: bool) -> Vec<REntry> {
-    let mut v = Vec::with_capacity(n);
+    let mut v: Vec<REntry> = Vec::with_capacity(n);
     let mut id = rng.below(1000);
     let mut off = 0u64;
     for _ in 0..n {
@@ -31,6 +31,11 @@ fn tile_entries(rng: &mut Rng, n: usize, entropy: bool) -> Vec<REntry> {
             }
         } else {
             off
+        };
+        let (offset, len) = match v.last() {
+            // not minimal but valid: continues the predecessor's run (same bytes, next id) as a separate entry
+            Some(p) if rng.chance(1, 60) && p.tile_id + u64::from(p.run_length) == id => (p.offset, p.length),
+            _ => (offset, len),
         };
         v.push(REntry {
             tile_id: id,
@@ -451,6 +456,52 @@ pub fn run(ctx: &mut Ctx) {
             ctx.end(case);
         }
         case += 1;
+    }
+    // ---- whole archives without a codec whose single directory lands just below / above the budget, with metadata of a few
+    // KiB in front of it: spill <=> the single-directory encoding exceeds 16257 bytes, whatever else the archive holds
+    for (k, n) in [3700usize, 3900, 4000, 4050, 4062, 4063, 4064, 4065, 4100].iter().enumerate() {
+        for asyncm in [false, true] {
+            if ctx.mine(case) {
+                ctx.begin(case);
+                let mut rng = ctx.rng("c06.boundary-archive", k as u64 * 2 + u64::from(asyncm));
+                let mut l = gen::gen_logical(&mut rng, gen::SizeClass::One, R::C_NONE);
+                l.tiles.clear();
+                for id in 0..*n as u64 {
+                    let len = rng.usize(2, 100);
+                    let mut c = rng.bytes(len);
+                    c[0] = id as u8;
+                    c[1] = (id >> 8) as u8;
+                    l.tiles.insert(id, std::rc::Rc::new(c));
+                }
+                l.meta = gen::json_object(&mut rng, 2, 6);
+                l.meta.insert(String::from("attribution"), serde_json::Value::String("© contributors ".repeat(rng.usize(40, 220))));
+                l.class = format!("boundary-archive-{n}");
+                let api = if asyncm { "PMTiles::to_async_writer" } else { "PMTiles::to_writer" };
+                let m = json!({"archive": l.describe(), "async": asyncm});
+                let written = if asyncm { guard(|| crate::checks::common::write_async(l.build_async())) } else { guard(|| crate::checks::common::write_sync(l.build())) };
+                match written {
+                    Err(pn) => ctx.panic(api, &pn, m),
+                    Ok(Err(e)) => ctx.violation(api, "error", "writing an archive failed", &e.to_string(), m),
+                    Ok(Ok(bytes)) => match crate::checks::common::verify_archive_bytes(&bytes, &l, &[]) {
+                        Ok(v) => {
+                            let single = R::dir_encoded_len(&v.walk.entries);
+                            let spilled = v.header.leaf_length > 0;
+                            if single <= ROOT_BUDGET && spilled {
+                                ctx.violation(api, "needless-spill", "archive spills into leaf directories although the single directory fits the root budget", &format!("single-directory encoding {single} bytes, metadata {} bytes, leaf section {} bytes", v.header.meta_length, v.header.leaf_length), m);
+                            } else if single > ROOT_BUDGET && !spilled {
+                                ctx.violation(api, "root-budget", "root directory exceeds 16257 bytes (whole archive)", &format!("{single} bytes"), m);
+                            } else {
+                                ctx.count(if spilled { "boundary_archives_spilled" } else { "boundary_archives_in_root" });
+                            }
+                        }
+                        Err(e) => ctx.violation(api, "mapping", "resolving root and leaves of the written archive does not reproduce the entries (whole archive)", &e, m),
+                    },
+                }
+                ctx.case(crate::rng::hash_u64s(&[l.fingerprint(), 606]), true);
+                ctx.end(case);
+            }
+            case += 1;
+        }
     }
     // ---- very regular long lists: far more than 16257 entries, yet a few hundred bytes once compressed
     for (k, n) in [16_257usize, 16_258, 20_000, 70_000, 200_000].iter().enumerate() {
